@@ -95,6 +95,10 @@ def one(rng):
     senc = rng.choice(["utf-8", "utf-8", "latin-1", "utf-16"])
     denc = rng.choice(["utf-8", "utf-8", "latin-1", "utf-16"])
     words = WORDS_U if ("latin-1" in (senc, denc)) else WORDS_X
+    if "export" not in (F, G):
+        # space characters that are not in string.whitespace are ordinary token characters in the bracket formats and in
+        # TIGER-XML (the export format, split with str.split(), cannot carry them)
+        words = words + ["10\u00a0000", "n\u0085l"] + ([] if ("latin-1" in (senc, denc)) else ["a\u2009b", "x\u3000y"])
     ts = mk_corpus(rng, cont, words)
     v4s = F == "export" and rng.random() < 0.5
     v4d = G == "export" and rng.random() < 0.5
